@@ -132,18 +132,28 @@ Definition check_stall (c : tval) : bool :=
   N.eqb (vn (vnth 0 m)) (vn (vnth 0 o)) && N.eqb (vn (vnth 1 m)) (vn (vnth 1 o)) &&
   match vopt (vnth 2 o) with Some r => N.eqb (vn (vnth 2 m)) (vn r) | None => true end.
 
+(* ---- mode 4: source re-attach history.  case = [4; _; _; _; r1 (what the target end sends); w1; _; _; sched; obs]
+   sched: 0 = one step of the target->source loop, 1 = SetSourceConnection(new end); obs = [bytes of end 0; bytes of end 1; ...] ---- *)
+Definition reattach_model (c : tval) : qshared :=
+  let sched := map vnat (vl (vnth 8 c)) in
+  fst (reattach_run (dec_reads (vnth 4 c)) (dec_writes (vnth 5 c)) (length (filter (Nat.eqb 1) sched)) sched).
+Definition reattach_obs (c : tval) : tval := VL (map VB (reattach_model c)).
+Definition check_reattach (c : tval) : bool := all2 list_eqb (reattach_model c) (map vb (vl (vnth 9 c))).
+
 Definition check (c : tval) : bool :=
   match vn (vnth 0 c) with
   | 0 => check_copy c
   | 1 => check_bridge c
   | 2 => check_life c
-  | _ => check_stall c
+  | 3 => check_stall c
+  | _ => check_reattach c
   end.
 Definition predict (c : tval) : tval :=
   match vn (vnth 0 c) with
   | 0 => copy_obs c
   | 1 => bridge_obs c
   | 2 => life_obs c
-  | _ => stall_obs c
+  | 3 => stall_obs c
+  | _ => reattach_obs c
   end.
 Close Scope N_scope.
